@@ -5,7 +5,7 @@
 set -u
 id="$1"; n="$2"; shift 2
 checks="$id $*"
-src=/tmp/seed-$id/out
+src=/tmp/${SEED_PREFIX:-seed}-$id/out
 S=/tmp/opcua-verif-mutants
 R=$S/repo; V=$S/verif
 mkdir -p $S
@@ -15,7 +15,7 @@ sed -i "s#path = \"/repo/lib\"#path = \"$R/lib\"#" $V/sim/Cargo.toml
 sed -i "s#target-dir = \"/verif/target\"#target-dir = \"$V/target\"#" $V/sim/.cargo/config.toml
 if ! git -C $R apply --check "$src/patch$n.diff" 2>/dev/null; then echo "patch$n does not apply"; exit 2; fi
 git -C $R apply "$src/patch$n.diff"
-dst=/verif/seeded/$id-$n
+dst=/verif/seeded/$id-${SEED_TAG:-}$n
 mkdir -p "$dst"
 cp "$src/patch$n.diff" "$dst/patch.diff"
 cp "$src/demo$n.md" "$dst/demo.md" 2>/dev/null
